@@ -346,13 +346,14 @@ pub fn run(tier: &str) -> i32 {
     }
     rt::set_cycles_available(None);
     // client side: what ic-cdk-bitcoin-canister attaches covers the default maximum
-    for net in [Network::Mainnet, Network::Testnet, Network::Regtest] {
+    for (net, lower) in [(Network::Mainnet, false), (Network::Testnet, false), (Network::Regtest, false), (Network::Mainnet, true), (Network::Testnet, true), (Network::Regtest, true)] {
         let fees = match net {
             Network::Mainnet => Fees::mainnet(),
             Network::Testnet => Fees::testnet(),
             Network::Regtest => Fees::default(),
         };
-        let n = net_req(net);
+        // both spellings of the request-side network type
+        let n = crate::world::net_req_spelled(net, lower);
         let checks: Vec<(&str, u128, u128)> = vec![
             ("get_utxos", ic_cdk_bitcoin_canister::cost_get_utxos(&GetUtxosRequest { address: "a".into(), network: n, filter: None }), fees.get_utxos_maximum),
             ("get_balance", ic_cdk_bitcoin_canister::cost_get_balance(&GetBalanceRequest { address: "a".into(), network: n, min_confirmations: None }), fees.get_balance_maximum),
@@ -361,7 +362,7 @@ pub fn run(tier: &str) -> i32 {
         ];
         for (name, attached, need) in checks {
             out.states += 1;
-            out.set_history(json!({"client": name, "network": net.to_string()}));
+            out.set_history(json!({"client": name, "network": net.to_string(), "lower_case_spelling": lower}));
             if attached < need {
                 out.violation("client-attaches-too-little", None, json!({"attached": attached.to_string(), "needed": need.to_string()}));
             } else {
@@ -372,7 +373,7 @@ pub fn run(tier: &str) -> i32 {
             let attached = ic_cdk_bitcoin_canister::cost_send_transaction(&SendTransactionRequest { transaction: vec![0; len], network: n });
             let need = fees.send_transaction_base + fees.send_transaction_per_byte * len as u128;
             out.states += 1;
-            out.set_history(json!({"client": "send_transaction", "network": net.to_string(), "len": len}));
+            out.set_history(json!({"client": "send_transaction", "network": net.to_string(), "lower_case_spelling": lower, "len": len}));
             if attached < need {
                 out.violation("client-attaches-too-little", None, json!({"attached": attached.to_string(), "needed": need.to_string()}));
             } else {
@@ -386,7 +387,7 @@ pub fn run(tier: &str) -> i32 {
         "cycles_available": "10000000000", "expected": "50000000 + min(100*10, 10000000000-50000000)"}));
     rep.out.merge(out);
     rep.evaluations = rep.out.states;
-    rep.rule = "fee tables {mainnet, testnet, default} U two tables with a distinct value in every field U product base x rate x (maximum - base) x flat (maximum >= base) x instruction counter {0,9,10,11,99,10^3,10^9,4*10^10} x endpoint (5 update + 2 query) x one success and every request-level error x payload lengths x available cycles {0, max-1, max, max+1, 2^127} on three networks; plus the client-side cost functions of ic-cdk-bitcoin-canister against the default tables".into();
+    rep.rule = "fee tables {mainnet, testnet, default} U two tables with a distinct value in every field U product base x rate x (maximum - base) x flat (maximum >= base) x instruction counter {0,9,10,11,99,10^3,10^9,4*10^10} x endpoint (5 update + 2 query) x one success and every request-level error x payload lengths x available cycles {0, max-1, max, max+1, 2^127} on three networks; plus the client-side cost functions of ic-cdk-bitcoin-canister against the default tables (both spellings of every network)".into();
     rep.bounds = json!({"tier": tier, "fee_tables": tables.len()});
     rep.assume("maximum >= base (the statement is undefined below that)");
     rep.assume("for send_transaction errors only base <= charged <= base + per_byte*len is demanded (statement and formula coincide only if the per-byte part counts as base)");
